@@ -1,6 +1,7 @@
 import Ovsdb.CodecUpdates
 import Ovsdb.CodecCache
 import Ovsdb.Model.Txn
+import Ovsdb.Model.Monitor
 namespace Ovsdb
 open Lean
 
@@ -39,5 +40,29 @@ def rowsToJson (rs : Rows) : Json :=
 def refsToJson (rf : List ((String × String × String × Bool) × UUID × List UUID)) : Json :=
   listToJson (fun e => Json.mkObj [("toTable", .str e.1.1), ("fromTable", .str e.1.2.1), ("fromColumn", .str e.1.2.2.1),
     ("fromValue", .bool e.1.2.2.2), ("to", .str e.2.1), ("from", listToJson Json.str e.2.2)]) rf
+
+end Ovsdb
+
+namespace Ovsdb
+open Lean
+
+def monReqOfJson (j : Json) : P (String × MonReq) := do
+  let t ← jStr (← jField j "table")
+  let cols ← jOpt (jList jStr) ((j.getObjVal? "columns").toOption.getD .null)
+  let hasSel ← jFieldD j "hasSelect" jBool true
+  if hasSel then
+    return (t, { columns := cols, insert := ← jFieldD j "insert" jBool true, delete := ← jFieldD j "delete" jBool true,
+                 modify := ← jFieldD j "modify" jBool true, initial := ← jFieldD j "initial" jBool true })
+  else return (t, { columns := cols })
+
+def monitorOfJson (j : Json) : P Monitor := do jList monReqOfJson (← jField j "requests")
+
+def notif2ToJson (n : Notif2) : Json :=
+  Json.mkObj [("table", .str n.table), ("uuid", .str n.uuid), ("insert", optToJson ovsRowToJson n.insert),
+              ("modify", optToJson ovsRowToJson n.modify), ("delete", .bool n.delete)]
+
+def notif1ToJson (n : Notif1) : Json :=
+  Json.mkObj [("table", .str n.table), ("uuid", .str n.uuid), ("old", optToJson ovsRowToJson n.old),
+              ("new", optToJson ovsRowToJson n.new)]
 
 end Ovsdb
